@@ -18,6 +18,9 @@ D  in test positions: ``not (not a or not b)`` -> ``a and b`` (and dually), ``no
 E  ``if c: A else: B`` where A ends in return / raise / continue / break ->  ``if c: A`` ; ``B``  (elif chains included)
 I  ``if c: x = a else: x = b`` (one plain name, one statement each)  ->  ``x = a if c else b``
 R  ``return a if c else b``  ->  ``if c: return a`` ; ``return b``
+F  ``x = next((p for p in S if C), None)`` (or ``next(filter(f, S), None)``) followed by ``if x is not None: B`` where B ends in
+   raise / return and x is read nowhere else  ->  ``for p in S: if C: x = p; B``  (the idiom treats None as "no match"; the
+   identity assumes the elements searched are not None)
 
 Line numbers of the surviving nodes are those of the original source.
 """
@@ -349,6 +352,81 @@ class _ReturnIfExp(ast.NodeTransformer):
         return node
 
 
+class _FirstMatch(ast.NodeTransformer):
+    """F"""
+    def __init__(self, loads):
+        self.loads = loads
+        self.n = 0
+
+    def _search(self, v):
+        """(target, iter, [conds]) of ``next((p for p in S if C), None)`` / ``next(filter(f, S), None)``, else None"""
+        if not (isinstance(v, ast.Call) and isinstance(v.func, ast.Name) and v.func.id == 'next' and len(v.args) == 2 and not v.keywords and
+                isinstance(v.args[1], ast.Constant) and v.args[1].value is None):
+            return None
+        g = v.args[0]
+        if isinstance(g, ast.GeneratorExp) and len(g.generators) == 1 and not g.generators[0].is_async and \
+                isinstance(g.generators[0].target, ast.Name) and isinstance(g.elt, ast.Name) and g.elt.id == g.generators[0].target.id:
+            return g.generators[0].target, g.generators[0].iter, list(g.generators[0].ifs)
+        if isinstance(g, ast.Call) and isinstance(g.func, ast.Name) and g.func.id == 'filter' and len(g.args) == 2 and not g.keywords and \
+                not (isinstance(g.args[0], ast.Constant) and g.args[0].value is None):
+            self.n += 1
+            var = ast.Name(id=f'_fm{self.n}', ctx=ast.Store())
+            f = g.args[0]
+            if isinstance(f, ast.Lambda) and len(f.args.args) == 1 and not f.args.defaults:
+                class _S(ast.NodeTransformer):
+                    def visit_Name(self, n, _p=f.args.args[0].arg, _v=var.id):
+                        return ast.Name(id=_v, ctx=n.ctx) if n.id == _p else n
+                import copy
+                cond = _S().visit(copy.deepcopy(f.body))
+            else:
+                cond = ast.Call(func=f, args=[ast.Name(id=var.id, ctx=ast.Load())], keywords=[])
+            return var, g.args[1], [cond]
+        return None
+
+    def _block(self, stmts):
+        out = []
+        i = 0
+        while i < len(stmts):
+            st = stmts[i]
+            nxt = stmts[i + 1] if i + 1 < len(stmts) else None
+            hit = None
+            if isinstance(st, ast.Assign) and len(st.targets) == 1 and isinstance(st.targets[0], ast.Name) and isinstance(nxt, ast.If) and \
+                    not nxt.orelse and nxt.body and isinstance(nxt.body[-1], (ast.Raise, ast.Return)) and \
+                    isinstance(nxt.test, ast.Compare) and len(nxt.test.ops) == 1 and isinstance(nxt.test.ops[0], ast.IsNot) and \
+                    isinstance(nxt.test.left, ast.Name) and nxt.test.left.id == st.targets[0].id and \
+                    isinstance(nxt.test.comparators[0], ast.Constant) and nxt.test.comparators[0].value is None and \
+                    not any(isinstance(x, (ast.Break, ast.Continue)) for x in ast.walk(nxt)):
+                x = st.targets[0].id
+                inside = sum(1 for y in ast.walk(nxt) if isinstance(y, ast.Name) and y.id == x and isinstance(y.ctx, ast.Load))
+                if self.loads.get(x, 0) == inside:
+                    hit = self._search(st.value)
+            if hit is not None:
+                tgt, it, conds = hit
+                inner = [ast.copy_location(ast.Assign(targets=[ast.Name(id=x, ctx=ast.Store())], value=ast.Name(id=tgt.id, ctx=ast.Load())), st)] + nxt.body
+                for c in reversed(conds):
+                    inner = [ast.copy_location(ast.If(test=c, body=inner, orelse=[]), nxt)]
+                out.append(ast.copy_location(ast.For(target=ast.Name(id=tgt.id, ctx=ast.Store()), iter=it, body=inner, orelse=[], type_comment=None), st))
+                i += 2
+                continue
+            out.append(st)
+            i += 1
+        return out
+
+    def generic_visit(self, node):
+        super().generic_visit(node)
+        for field in ('body', 'orelse', 'finalbody'):
+            v = getattr(node, field, None)
+            if isinstance(v, list) and v and isinstance(v[0], ast.stmt):
+                setattr(node, field, self._block(v))
+        return node
+
+    def visit_FunctionDef(self, node):
+        return node         # nested functions are handled by their own pass
+
+    visit_AsyncFunctionDef = visit_FunctionDef
+    visit_Lambda = visit_FunctionDef
+
+
 def prenormalize(tree):
     if hasattr(ast, 'Match'):
         _Match().visit(tree)
@@ -362,6 +440,12 @@ def prenormalize(tree):
             b.visit(st)
     _Yoda().visit(tree)
     _Tests().visit(tree)
+    for fn in [n for n in ast.walk(tree) if isinstance(n, (ast.FunctionDef, ast.AsyncFunctionDef))]:
+        loads, _ = _name_counts(fn)
+        fm = _FirstMatch(loads)
+        fn.body = fm._block(fn.body)
+        for st in fn.body:
+            fm.visit(st)
     _MergeIfAssign().visit(tree)
     _ReturnIfExp().visit(tree)
     _ElseDrop().visit(tree)
